@@ -256,4 +256,95 @@ theorem orbital_inclination (e0 e1 i0 arg0 lon0 : ℝ) :
   rw [cos_rad_of_rad]; unfold patan2
   rw [Complex.cos_arg hne, hn]; simp
 
+/-! ### growth round: clauses that were measured only, and aspects realistic slips hit -/
+
+/-- Proper motion in `precession_ecliptical`: the result with proper motion (μλ, μβ) (degrees per year) is the result
+    without proper motion started from (λ*, β*) = (λ + 100 t μλ, β + 100 t μβ) up to whole turns — each coordinate
+    displaced by ITS OWN proper motion, linearly in the elapsed time `100 t` years. -/
+theorem ecliptical_proper_motion_linear (e0 e1 l b μl μb : ℝ) :
+    ∃ ls bs : ℝ, ∃ K L : ℤ,
+      ls = l + μl * ((e1 - e0) / 36525.0) * 100 + 360 * K ∧ bs = b + μb * ((e1 - e0) / 36525.0) * 100 + 360 * L ∧
+      precession_ecliptical e0 e1 l b μl μb = precession_ecliptical e0 e1 ls bs 0 0 := by
+  obtain ⟨K, hK⟩ := pm_shift l μl ((e1 - e0) / 36525.0)
+  obtain ⟨L, hL⟩ := pm_shift b μb ((e1 - e0) / 36525.0)
+  refine ⟨_, _, K, L, hK, hL, ?_⟩
+  rw [precession_ecliptical_eq, precession_ecliptical_eq, pm_zero (abs_a_add_lt _ _), pm_zero (abs_a_add_lt _ _)]
+
+/-- The same for `precession_newcomb` (FK4; `t` in tropical centuries of 36524.2199 days). -/
+theorem newcomb_proper_motion_linear (e0 e1 α δ μα μδ : ℝ) :
+    ∃ αs δs : ℝ, ∃ K L : ℤ,
+      αs = α + μα * ((e1 - e0) / 36524.2199) * 100 + 360 * K ∧ δs = δ + μδ * ((e1 - e0) / 36524.2199) * 100 + 360 * L ∧
+      precession_newcomb e0 e1 α δ μα μδ = precession_newcomb e0 e1 αs δs 0 0 := by
+  obtain ⟨K, hK⟩ := pm_shift α μα ((e1 - e0) / 36524.2199)
+  obtain ⟨L, hL⟩ := pm_shift δ μδ ((e1 - e0) / 36524.2199)
+  refine ⟨_, _, K, L, hK, hL, ?_⟩
+  rw [precession_newcomb_eq, precession_newcomb_eq, pm_zero (abs_a_add_lt _ _), pm_zero (abs_a_add_lt _ _)]
+
+/-- A proper motion in latitude only moves the latitude: with μλ = 0 the starting longitude is unchanged
+    (an Angle, |λ| < 360) — a model that fed the longitude's proper motion into the latitude, or vice versa, fails this. -/
+theorem ecliptical_proper_motion_separate (e0 e1 l b μb : ℝ) (hl : |l| < 360) :
+    ∃ bs : ℝ, ∃ L : ℤ, bs = b + μb * ((e1 - e0) / 36525.0) * 100 + 360 * L ∧
+      precession_ecliptical e0 e1 l b 0 μb = precession_ecliptical e0 e1 l bs 0 0 := by
+  obtain ⟨L, hL⟩ := pm_shift b μb ((e1 - e0) / 36525.0)
+  refine ⟨_, L, hL, ?_⟩
+  rw [precession_ecliptical_eq, precession_ecliptical_eq, pm_zero hl, pm_zero (abs_a_add_lt _ _)]
+
+example : ∃ bs : ℝ, ∃ L : ℤ, bs = 1.76549 + 0.002 * ((2469807.5 - 2451545) / 36525.0) * 100 + 360 * L ∧
+    precession_ecliptical 2451545 2469807.5 149.48194 1.76549 0 0.002
+      = precession_ecliptical 2451545 2469807.5 149.48194 bs 0 0 :=
+  ecliptical_proper_motion_separate 2451545 2469807.5 149.48194 1.76549 0.002 (by rw [abs_lt]; constructor <;> norm_num)
+
+/-- `mean_obliquity` within 10000 years of J2000 IS Laskar's polynomial, term by term with its signs (Meeus 22.3):
+    ε0 = 23°26'21.448" − 4680.93"U − 1.55"U² + 1999.25"U³ − 51.38"U⁴ − 249.67"U⁵ − 39.05"U⁶ + 7.12"U⁷ + 27.87"U⁸
+    + 5.79"U⁹ + 2.45"U¹⁰, U = (JDE − 2451545) / 3652500; the Angle arithmetic of the source (sexagesimal reduction,
+    `+=`) removes nothing in that range. -/
+theorem mean_obliquity_laskar (jde : ℝ) (h : |jde - 2451545| ≤ 3652500) :
+    mean_obliquity jde = 23 + 26 / 60 + 21.448 / 3600 + laskar ((jde - 2451545) / 3652500) / 3600 :=
+  mean_obliquity_spec jde h
+
+example : |(2488070 : ℝ) - 2451545| ≤ 3652500 := by rw [abs_le]; constructor <;> norm_num
+
+/-- "reducing orbital elements to another equinox": the orbit PLANE is carried exactly like a direction by
+    `precession_ecliptical`: the unit normal of the new orbit (node `lon1`, inclination `i1`) is the ecliptical
+    precession rotation (the one of `ecliptical_is_rotation`) applied to the unit normal of the old orbit — for every
+    inclination 0..180° and every pair of epochs; nothing is raised.
+    (The perihelion direction: `orbital_perihelion_precesses` below.  Not proved: the numerical there-and-back, which
+    compares two truncated series.) -/
+theorem orbital_pole_precesses (e0 e1 i0 arg0 lon0 : ℝ) :
+    ∃ i1 arg1 lon1, orbital_equinox2equinox e0 e1 i0 arg0 lon0 = .ok (i1, arg1, lon1) ∧
+      orbitPole lon1 i1 =
+        flipZ (rad (a_of_sec (ecl_p ((e0 - 2451545.0) / 36525.0) ((e1 - e0) / 36525.0)))
+               + rad (a_add (a_of_sec (ecl_pie ((e0 - 2451545.0) / 36525.0) ((e1 - e0) / 36525.0))) 174.876384))
+          (rotX (-(rad (a_of_sec (ecl_eta ((e0 - 2451545.0) / 36525.0) ((e1 - e0) / 36525.0)))))
+            (flipZ (rad (a_add (a_of_sec (ecl_pie ((e0 - 2451545.0) / 36525.0) ((e1 - e0) / 36525.0))) 174.876384))
+              (orbitPole lon0 i0))) :=
+  orbital_pole_spec e0 e1 i0 arg0 lon0
+
+/-- … and so is the PERIHELION direction (node `lon1`, inclination `i1`, argument `arg1`), whenever the new
+    inclination is not 0° or 180° (`sin i1 ≠ 0`; there the node is undetermined and the source's `atan2(0, 0)` picks
+    one — the corner listed in findings.d/C06.json).  With `orbital_pole_precesses` this says: the whole orientation
+    of the orbit (plane and apsidal line) is carried by the same rotation as any ecliptical direction, so the three
+    new elements describe the same orbit in the new frame — exactly, for every inclination in (0°, 180°). -/
+theorem orbital_perihelion_precesses (e0 e1 i0 arg0 lon0 i1 arg1 lon1 : ℝ)
+    (h : orbital_equinox2equinox e0 e1 i0 arg0 lon0 = .ok (i1, arg1, lon1)) (hi : sin (rad i1) ≠ 0) :
+    orbitPeri lon1 i1 arg1 =
+      flipZ (rad (a_of_sec (ecl_p ((e0 - 2451545.0) / 36525.0) ((e1 - e0) / 36525.0)))
+             + rad (a_add (a_of_sec (ecl_pie ((e0 - 2451545.0) / 36525.0) ((e1 - e0) / 36525.0))) 174.876384))
+        (rotX (-(rad (a_of_sec (ecl_eta ((e0 - 2451545.0) / 36525.0) ((e1 - e0) / 36525.0)))))
+          (flipZ (rad (a_add (a_of_sec (ecl_pie ((e0 - 2451545.0) / 36525.0) ((e1 - e0) / 36525.0))) 174.876384))
+            (orbitPeri lon0 i0 arg0))) :=
+  orbital_peri_spec e0 e1 i0 arg0 lon0 i1 arg1 lon1 h hi
+
+/-- The hypothesis `sin i1 ≠ 0` is satisfiable: an inclination of 47.122° can only change by |η| (see `orbital_inclination`),
+    here shown in the weaker form that SOME result exists with the cosine rule; e.g. for a zero interval i1 = i0. -/
+example : ∃ i1 arg1 lon1, orbital_equinox2equinox 2451545 2451545 47.122 151.4486 45.7481 = .ok (i1, arg1, lon1) ∧
+    cos (rad i1) = cos (rad 47.122) := by
+  obtain ⟨i1, arg1, lon1, h, _, _, hc⟩ := orbital_inclination 2451545 2451545 47.122 151.4486 45.7481
+  refine ⟨i1, arg1, lon1, h, ?_⟩
+  have ht : ((2451545 : ℝ) - 2451545) / 36525.0 = 0 := by norm_num
+  obtain ⟨z1, _⟩ := ecl_zero (((2451545 : ℝ) - 2451545.0) / 36525.0)
+  rw [hc, ht, z1, a_of_sec_zero]
+  have r0 : rad 0 = 0 := by unfold rad; ring
+  rw [r0]; simp
+
 end Pymeeus.C06
